@@ -67,6 +67,7 @@ type harnessSummary struct {
 	UnknownFeas  int                       `json:"feasibility_unknown_treated_feasible"`
 	Summaries    int                       `json:"pure_callee_summaries"`
 	StaleObjects int                       `json:"stale_objects_handed_out"`
+	Monitors     map[string]int64          `json:"monitor_checks"` // what the monitors looked at on the explored paths (each is an implicit obligation: an event would be a violation)
 	WallS        float64                   `json:"wall_s"`
 	Functions    int                       `json:"functions_encoded"`
 }
@@ -77,6 +78,12 @@ func (r *harnessRun) summary() *harnessSummary {
 		Summaries: r.summaries, StaleObjects: r.staleObjs, WallS: time.Since(r.start).Seconds(), Functions: len(r.funcs)}
 	for _, k := range r.eventOrder {
 		s.Events = append(s.Events, r.events[k])
+	}
+	s.Monitors = map[string]int64{"panic_free_paths": int64(r.ended)}
+	for i, n := range []string{"stores_checked_against_frozen_cells", "pool_puts_checked", "pool_gets_modelled", "accesses_checked_against_pooled_objects", "accesses_race_checked"} {
+		if r.mon[i] > 0 {
+			s.Monitors[n] = r.mon[i]
+		}
 	}
 	return s
 }
@@ -523,11 +530,18 @@ func cmdCheck(args []string) int {
 	sort.Strings(assumptions)
 	var kfNotes []string
 	kfNotes = append(kfNotes, knownLines...)
+	monTotal := map[string]int64{}
+	for _, sm := range sums {
+		for k, v := range sm.Monitors {
+			monTotal[k] += v
+		}
+	}
 	ev := map[string]interface{}{
 		"property_id": id, "tier": *tier, "seed": defaultCfg(*tier).seed, "level": "model_checking",
 		"coverage": map[string]interface{}{
 			"states": states, "transitions": transitions, "traces_validated_against_impl": validated, "samples": samples,
-			"explanation":               "bounded symbolic execution of the real go/ssa of /repo (regenerated on this run); states = symbolic paths explored, transitions = SSA instructions executed symbolically; every obligation is a solver query pc ∧ ¬assertion",
+			"explanation":               "bounded symbolic execution of the real go/ssa of /repo (regenerated on this run); states = symbolic paths explored, transitions = SSA instructions executed symbolically; every obligation is a solver query pc ∧ ¬assertion; monitor_checks counts what the panic / frame / pool-ownership / race monitors examined on those paths (an event of theirs is a violation without a query)",
+			"monitor_checks":            monTotal,
 			"obligations":               totalObl,
 			"discharged":                totalDischarged,
 			"harnesses":                 sums,
